@@ -87,7 +87,8 @@ func (q *Queue) process() {
 	// Setup backlog
 	var backlog []Task
 	if q.depth > 0 {
-		backlog = make([]Task, 0, q.depth)
+		// Only a hint, so that an enormous depth does not try to allocate it all up front
+		backlog = make([]Task, 0, min(q.depth, 1024))
 	}
 
 	// Setup workers
